@@ -14,6 +14,12 @@ FN = "RelativeSequence.transpose"
 
 
 def check(ctx: Ctx) -> None:
+    _check(ctx)
+    from ..engines.typestate import check_wrappers
+    check_wrappers(ctx, ['transpose'])
+
+
+def _check(ctx: Ctx) -> None:
     p = ctx.p
     fi = p.func(FN)
     ctx.analysed(fi)
